@@ -352,6 +352,8 @@ class SiteAnalysis:
             return f"{leaf.name}{'[value]' if leaf.strict else '.get(value)'}"
         if k == "each":
             return "each(" + ast.unparse(leaf.elt)[:70] + ")"
+        if k == "try":
+            return f"try({self.leaf_desc(leaf.body)} except {self.leaf_desc(leaf.handler)})"
         if k in ("raise", "error"):
             return f"{k}({leaf.what})"
         if k == "coerce":
@@ -373,6 +375,31 @@ class SiteAnalysis:
             return [("foreign", f"uses {leaf.what} instead of its own converter")]
         if k == "structure_self":
             return [("unsupported", "re-dispatches on its own union type (infinite recursion)")]
+        if k == "try":
+            # the body's leaf is what the hook returns unless evaluating it raises; for a structure() leaf the judge
+            # knows which failures raise (a required key that is missing: KeyError) and which do not (cattrs coerces
+            # str(dict), bool(x) ... silently)
+            body_issues = self.judge(ev, site, alt, w, leaf.body, U, root)
+            if not body_issues:
+                return []
+            import re as _re
+            for cat, msg in body_issues:
+                mo = _re.search(r"requires '([^']+)' which is optional in", msg)
+                if mo and getattr(leaf.body, "path", None) is not None:
+                    key_ = (leaf.body.path, mo.group(1))
+                    if key_ not in w.keys:
+                        def mk(val, key_=key_):
+                            def app(x):
+                                x.keys[key_] = val
+                            return app
+                        raise Fork([mk(True), mk(False)])
+            cats = {c for c, _ in body_issues}
+            raises = (leaf.body.kind in ("raise", "error")) or \
+                ("unsound" in cats and "miscoerce" not in cats and any(" requires '" in m for c, m in body_issues if c == "unsound"))
+            if raises:
+                return self.judge(ev, site, alt, w, leaf.handler, U, root)
+            return [(c, "the try body does not raise for this value, so its result is returned and the except branch is "
+                        "never reached: " + m) for c, m in body_issues]
         if k in ("none", "fallthrough"):
             if alt != NONE and w.alt.get(root) != NONE:
                 return [("unsupported", "returns None for a non-null value")]
